@@ -37,7 +37,11 @@ class Adapter:
 
     def mc_runs(self, tier):
         q = "FALSE" if tier == "thorough" else "TRUE"
-        return [("CsrEventMon_MC", MC.format(n=2, quick=q),
+        more = []
+        if tier == "thorough":
+            more = [("IrqHandler_MC", IRQ.format(spec="Spec", n=3, ack="TRUE", modes='{"level", "rise"}', view=IRQ_SAFE),
+                     "IrqHandler_MC with up to three sources (masks of 2-3 chunks): NoLostWork, QuietMeansDone, DisabledUntouched")]
+        return more + [("CsrEventMon_MC", MC.format(n=2, quick=q),
                  f"CsrEventMon_MC (Quick={q}): enable takes the written mask, write-one-to-clear exactly, "
                  "re-trigger wins, zeros clear nothing, irq"),
                 ("IrqHandler_MC", IRQ.format(spec="Spec", n=2, ack="TRUE", modes=ALL_MODES, view=IRQ_SAFE),
